@@ -147,6 +147,23 @@ impl Oracle {
             t[bit / 8] ^= 1 << (bit % 8);
             variants.push((name.into(), v.0, v.1, v.2, v.3, v.4, v.5));
         }
+        // the unused top bit of each 32-byte point encoding (a canonical encoding never has it set)
+        {
+            let mut v = (pk.clone(), md, p, q, c, s);
+            v.3[31] ^= 0x80;
+            variants.push(("output:bit255".into(), v.0, v.1, v.2, v.3, v.4, v.5));
+            let mut v = (pk.clone(), md, p, q, c, s);
+            v.2[31] ^= 0x80;
+            variants.push(("input:bit255".into(), v.0, v.1, v.2, v.3, v.4, v.5));
+            let mut k = pk.clone();
+            k[31] ^= 0x80;
+            variants.push(("pk:base_bit255".into(), k, md, p, q, c, s));
+            if let Some(off) = pk_entry(&pk, md) {
+                let mut k = pk.clone();
+                k[off + 31] ^= 0x80;
+                variants.push(("pk:tag_entry_bit255".into(), k, md, p, q, c, s));
+            }
+        }
         // tag: another registered tag of the same key, and an unregistered one
         let n = u64::from_le_bytes(pk[32..40].try_into().unwrap()) as usize;
         for i in 0..n {
